@@ -9,7 +9,7 @@ CONSTANTS
   Modes <- TwoModes
   Limits <- HLimits
   Apis = {"reader"}
-  Ends = {"forget", "abandon"}
+  Ends = {"close", "forget", "abandon"}
   Writers = FALSE
   MaxOps = 2
   Rereads = TRUE
